@@ -125,7 +125,9 @@ def gen_routine(rng, simc, prob_vector_ok=True):
     ey = s.get('end_year', s['years'][-1] if 'years' in s else int(g[-1]))
     ny = ey - sy + 1
     if r < 0.25 and prob_vector_ok and ny >= 2 and not (0.5 < dt < 1):
-        s['prob'] = [rng.choice([0.0, 0.1, 0.3, 0.5, 0.8, 1.0]) for _ in range(ny)]
+        # (a coverage of exactly 1 in an interpolated annual vector makes 1-(1-p)**dt ill-conditioned on a non-dyadic grid)
+        top = [1.0] if frac(dt).denominator in (1, 2, 4) or not s['annual_prob'] else [0.9]
+        s['prob'] = [rng.choice([0.0, 0.1, 0.3, 0.5, 0.8] + top) for _ in range(ny)]
     elif r < 0.30 and ny >= 3:
         s['prob'] = [0.2, 0.4]                   # wrong length -> ValueError
     else:
@@ -283,8 +285,8 @@ def make_snap(case):
             ek, el = eval_elig(case['elig'], sim)
             s['elig'] = (ek, el)
             us = sorted(set(s['active']) | set(el if ek != 'mask' else []))
-            s['draws'] = upcoming_draws(iv.coverage_dist, ppl, us)
-            s['cov_ind'] = int(iv.coverage_dist.ind)
+            cd = getattr(iv, 'coverage_dist', None)     # CampaignDelivery x BaseTest has none
+            s['draws'] = upcoming_draws(cd, ppl, us) if cd is not None else {}
         if kind == 'vx':
             s['vacc'] = np.nonzero(np.asarray(iv.vaccinated.raw[:n]))[0].tolist()
             s['doses'] = np.asarray(iv.n_doses.raw[:n], dtype=float).copy()
